@@ -53,8 +53,11 @@ def part(fun):
 
 
 def frame(c, rows):
+    """the table made of rows `rows` of the case's table; column rid = position of the row in the case's table"""
     s = float(c['scale'])
-    return pd.DataFrame({k: np.array([v[r] / s for r in rows], dtype=np.float64) for k, v in c['cols'].items()})
+    df = pd.DataFrame({k: np.array([v[r] / s for r in rows], dtype=np.float64) for k, v in c['cols'].items()})
+    df['rid'] = np.array(rows, dtype=np.float64)
+    return df
 
 
 def formulas(c):
@@ -74,11 +77,18 @@ def formulas(c):
         ll = log(PanelLikelihoodTrajectory(logit(V, None, Variable('ch'))))
     else:
         ll = loglogit(V, None, Variable('ch'))
-    fm = {'log_like': ll}
+    llkey, wkey = c.get('llkey', 'log_like'), c.get('wkey', 'weight')
+    fm = {llkey: ll}
     if c['weight'] == 'w':
-        fm['weight'] = Variable('w')
+        fm[wkey] = Variable('w')
     elif c['weight'] == 'wexpr':
-        fm['weight'] = Variable('w') * 0.5 + Variable('w2')
+        fm[wkey] = Variable('w') * 0.5 + Variable('w2')
+    elif c['weight'] == 'const':          # a bare numeric constant
+        fm[wkey] = Numeric(c['wconst'] / s)
+    elif c['weight'] == 'constexpr':      # a constant expression
+        fm[wkey] = Numeric(c['wconst'] / s) * Numeric(1) + Numeric(0)
+    elif c['weight'] == 'constcol':       # a constant times a column
+        fm[wkey] = Numeric(c['wconst'] / s) * Variable('w')
     return fm
 
 
@@ -95,14 +105,23 @@ def database(c, rows, name='c04'):
 
 
 def units(c, rows):
-    """observations of the sample: the rows, or the individuals of panel data"""
-    if c.get('panel'):
-        return list(range(len(set(c['cols']['pid'][r] for r in rows))))
-    return rows
+    """observations of the sample: the rows (positions in the case's table), or, for panel data, the individuals
+    (rank of their identifier in the case's table) -- None if an individual is not there with all its rows"""
+    rows = [int(r) for r in rows]
+    if not c.get('panel'):
+        return rows
+    pid = c['cols']['pid']
+    ids = sorted(set(pid))
+    present = sorted(set(pid[r] for r in rows))
+    for i in present:
+        if sorted(r for r in rows if pid[r] == i) != [r for r in range(len(pid)) if pid[r] == i]:
+            return None
+    return [ids.index(i) for i in present]
 
 
-def make(c, rows, T, via='kw', **kw):
-    d = database(c, rows)
+def make(c, rows, T, via='kw', d=None, **kw):
+    if d is None:
+        d = database(c, rows)
     P = Parameters()
     if via == 'params':
         P.set_value(name='number_of_threads', value=T, section='MultiThreading')
@@ -119,14 +138,26 @@ def derivs(r):
     return {'f': ratio(r.function), 'g': ratios(r.gradient), 'h': ratios(r.hessian), 'b': ratios(r.bhhh)}
 
 
-def evaluate(c, rows, T, via='kw', full=True):
-    """everything one BIOGEME object reports on the table made of `rows` of the case's table"""
-    out = {'T': T, 'rows': units(c, rows), 'via': via}
-    pb = part(lambda: make(c, rows, T, via))
+def evaluate(c, rows, T, via='kw', full=True, d=None):
+    """everything one BIOGEME object reports on the table made of `rows` of the case's table, or on the given
+    Database `d` (a part made by the library): its rows are then read from the column rid"""
+    out = {'T': T, 'via': via}
+    if d is None:
+        out['rows'] = units(c, rows)
+    pb = part(lambda: make(c, rows, T, via, d=d))
     if not pb['ok']:
         out['build'] = pb
+        if d is not None:
+            out['rows'] = part(lambda: units(c, d.data['rid'].tolist())).get('v')
         return out
     B = pb['v']
+    if d is not None:
+        pr = part(lambda: [int(v) for v in B.database.data['rid'].tolist()])
+        out['raw_rows'] = pr.get('v')
+        out['rows'] = units(c, pr['v']) if pr['ok'] else None
+        if out['rows'] is None:
+            out['build'] = {'ok': False, 'exc': 'rows', 'msg': 'the part does not hold whole observations / rid unreadable'}
+            return out
     bv = beta_values(c)
     out['free'] = list(B.id_manager.free_betas.names)
     x = [bv[k] for k in out['free']]
@@ -159,12 +190,12 @@ def per_row(c, rows):
     disaggregated (expressions/calculator.py)"""
     def go():
         d = database(c, rows, 'c04r')
-        ll = formulas(c)['log_like']
+        ll = formulas(c)[c.get('llkey', 'log_like')]
         o = ll.get_value_and_derivatives(betas=beta_values(c), database=d, gradient=True, hessian=True, bhhh=True,
                                          aggregation=False, prepare_ids=True)
         n = len(units(c, rows))
         # the same evaluator, aggregated (always 4 threads: evaluateExpressions.cc)
-        a = formulas(c)['log_like'].get_value_and_derivatives(betas=beta_values(c), database=database(c, rows, 'c04a'),
+        a = formulas(c)[c.get('llkey', 'log_like')].get_value_and_derivatives(betas=beta_values(c), database=database(c, rows, 'c04a'),
                                                               gradient=True, hessian=True, bhhh=True, aggregation=True, prepare_ids=True)
         return {'f': ratios(o.functions), 'g': [ratios(o.gradients[i]) for i in range(n)],
                 'h': [ratios(o.hessians[i]) for i in range(n)], 'b': [ratios(o.bhhhs[i]) for i in range(n)],
@@ -190,6 +221,58 @@ def negative(c, rows, T):
     return part(go)
 
 
+def spec_positions(spec):
+    if 'range' in spec:
+        return range(*spec['range'])
+    return list(spec['list'])
+
+
+def lib_ops(c, allrows):
+    """parts made by the library itself: Database.extract_rows, Database.split, Database.mdcev_row_split"""
+    out = []
+    for op in c.get('lib', []):
+        r = {'op': op['op']}
+        try:
+            if op['op'] == 'extract':
+                parts = []
+                for spec, T in zip(op['parts'], op['Ts']):
+                    pd_ = part(lambda: database(c, allrows).extract_rows(spec_positions(spec)))
+                    parts.append(evaluate(c, None, T, d=pd_['v']) if pd_['ok'] else {'T': T, 'build': pd_, 'rows': None})
+                r['parts'] = parts
+            elif op['op'] == 'rowsplit':
+                def go():
+                    d = database(c, allrows)
+                    return d.mdcev_row_split() if op.get('range') is None else d.mdcev_row_split(spec_positions(op['range']))
+                pl = part(go)
+                r['parts'] = ([evaluate(c, None, T, d=d_, full=True) for d_, T in zip(pl['v'], op['Ts'])] if pl['ok']
+                              else [{'T': None, 'build': pl, 'rows': None}])
+            elif op['op'] == 'split':
+                def go():
+                    np.random.seed(op['seed'])
+                    return database(c, allrows).split(op['slices'], groups=op.get('groups'))
+                pl = part(go)
+                if not pl['ok']:
+                    r['error'] = pl
+                else:
+                    r['pairs'] = []
+                    for ev, T in zip(pl['v'], op['Ts']):
+                        def db_of(df, nm):
+                            d_ = Database(nm, df)
+                            if c.get('panel'):
+                                d_.panel('pid')
+                            return d_
+                        pv = part(lambda: db_of(ev.validation, 'val'))
+                        pe = part(lambda: db_of(ev.estimation, 'est'))
+                        r['pairs'].append({
+                            'validation': evaluate(c, None, T, d=pv['v']) if pv['ok'] else {'T': T, 'build': pv, 'rows': None},
+                            'estimation': evaluate(c, None, T, d=pe['v'], full=False) if pe['ok'] else {'T': T, 'build': pe, 'rows': None}})
+        except Exception as e:  # noqa
+            DIRTY[0] = True
+            r['error'] = {'ok': False, 'exc': type(e).__name__, 'msg': str(e)[:300]}
+        out.append(r)
+    return out
+
+
 def case_table(c):
     allrows = list(range(len(c['cols']['x1'])))
     n = len(units(c, allrows))
@@ -200,6 +283,7 @@ def case_table(c):
     res['splits'] = [[evaluate(c, prt, T) for prt, T in zip(s['parts'], s['Ts'])] for s in c.get('splits', [])]
     if c.get('negative'):
         res['negative'] = negative(c, allrows, c['negative'])
+    res['lib'] = lib_ops(c, allrows)
     return res
 
 
